@@ -57,6 +57,13 @@ OBLIGATIONS.append(dict(name="fragment_block_always_stored_bs4", harness="harnes
     reach=["sparse_tail", "zero_nosparse_tail", "data_tail"],
     functions=["process_block (block_processor.c)", "process_completed_fragment, process_completed_block, set_block_size (lib/sqfs/src/block_processor/backend.c)"],
     bound="one tail-end fragment of 1..4 symbolic bytes with symbolic nosparse / dont_compress flags, no fragment table, then completion of the fragment block it opened"))
+def xid(nb, meta, tiers):
+    return dict(name="xattr_id_table_locations_nb%d_m%d" % (nb, meta), harness="harness/C03_xattrid.c", sources=["lib/util/src/alloc.c"], included_sources=["lib/sqfs/src/xattr/xattr_writer_flush.c"],
+        incdirs=["lib/sqfs/src/xattr", "."], pre_include=["stubs/vp_pre_meta.h"], defines=dict(NB=nb, VP_META=meta), unwind=nb + 3, tiers=tiers, timeout=300,
+        reach=["written", "io_error"], functions=["write_id_table, alloc_location_table (lib/sqfs/src/xattr/xattr_writer_flush.c)"],
+        bound="%d xattr sets, metadata block size scaled to %d bytes (%d id entries per block), symbolic block address steps, append may fail" % (nb, meta, meta // 16))
+OBLIGATIONS += [xid(1, 32, ["quick", "thorough"]), xid(2, 32, ["quick", "thorough"]), xid(3, 32, ["quick", "thorough"]), xid(4, 32, ["thorough"]), xid(3, 48, ["thorough"])]
+
 ASSUMPTIONS = ["codec libraries (liblz4, libzstd) replaced by contract stubs that return any documented value",
                "metadata writer replaced by a recording stub with a position model (offset wraps at the scaled block size, block address advances by 3..M+2)",
                "inode references < 2^48 and block positions < 2^40"]
